@@ -15,6 +15,24 @@
 // (patcher.Resume / bowl.Commit) or the output tree equals the new build; with
 // no damage at all it must not return an error (and hence must equal the new
 // build).
+//
+// Fingerprints: <violation>:<damage>:<size class of the old file>:<reuse>
+//
+//	violation  undamaged-rejected | silent-wrong
+//	damage     none | flip | trunc-at-boundary (cut exactly at a block boundary,
+//	           0 included) | trunc-in-block | extend-in-last-block (the appended
+//	           bytes stay inside the last, short block) | extend-past-last-block |
+//	           delete | filled-empty (several joined by +), or already-failing
+//	           when the same new file already violates the property without any
+//	           damage, or damage-elsewhere when no damage touches an old file it reads
+//	size       size-0 | size-kB (non-zero multiple of the 64KiB block) | size-kB+r
+//	reuse      how the wrong / rejected new file uses the old build: data |
+//	           block-ranges | whole-copy (bowl.Transpose) | whole-copy-after-read
+//	           (whole-file copy of the old file that was also the last one read
+//	           through the pool) | bsdiff
+//
+// A stand-alone reproduction of the failures seen on the pinned tree is in
+// ./repro (go run ./checks/c09/repro).
 package main
 
 import (
@@ -62,7 +80,7 @@ func main() {
 	runner.Main(runner.Config{
 		ID:    "C09",
 		Level: "fault_enumeration",
-		Rule:  "enumerated: build pairs = old file size class {100B, 1 block, 1 block+100, 2 blocks, 2 blocks+100, 3 blocks (thorough: 2 blocks+65535, 3 blocks+1)} x reuse shape {whole-file copy, aligned prefix range, suffix range over the last block, fresh block then all blocks, shifted ranges, partial use then whole-file copy, other block then whole-file copy, whole-file copy twice, whole-file copy then partial use, insertion, second-half-of-block} plus two two-file pairs with an empty file; x {plain patch, optimized patch (rediff, 2 partitions)}; x damage = none | every single damage of the catalogue on every old file (bit flip at first/last byte of every block, byte 1 and byte 32768; truncation to 0, 1, 32768, B-1, B, B+1, 2B, last block boundary, size-1; extension by 1, up to / exactly to / one past the end of the last block, B, B+1; deletion; empty file filled with 1, B, B+1 bytes) | every pair of single damages on two different old files (two-file pairs) | thorough: every pair of single damages of different kinds on one file. Each case: old build copied, damaged, patch applied through pwr.NewSafeKeeper (same pool for patcher and fresh bowl), outcome compared with the new build by an independent Lstat walk. Non-trivial = at least one damage hits an old file that the independently decoded patch reads (block range, whole-file copy or bsdiff target); for damage=none: the patch reads at least one old file.",
+		Rule:  "enumerated: build pairs = old file size class {100B, 1 block, 1 block+100, 2 blocks, 2 blocks+100, 3 blocks (thorough: 2 blocks+65535, 3 blocks+1)} x reuse shape {whole-file copy, aligned prefix range, suffix range over the last block, fresh block then all blocks, shifted ranges, partial use then whole-file copy, other block then whole-file copy, whole-file copy twice, whole-file copy then partial use, insertion, second-half-of-block} plus two two-file pairs with an empty file; x {plain patch, optimized patch (rediff, 2 partitions)}; x damage = none | every single damage of the catalogue on every old file (bit flip at first/last byte of every block, byte 1 and byte 32768; truncation to 0, 1, 32768, B-1, B, B+1, 2B, last block boundary, size-1; extension by 1, up to / exactly to / one past the end of the last block, B, B+1; deletion; empty file filled with 1, B, B+1 bytes) | every pair of single damages on two different old files (two-file pairs) | thorough: every pair of single damages of different kinds on one file. Each case: old build copied, damaged, patch applied through pwr.NewSafeKeeper (same pool for patcher and fresh bowl), outcome compared with the new build by an independent Lstat walk. A silently wrong new file is attributed to its damage only if the same file comes out right without damage (else fingerprint damage = already-failing); with two damages, to the single damage that alone reproduces the same wrong content if there is one. Non-trivial = at least one damage hits an old file that the independently decoded patch reads (block range, whole-file copy or bsdiff target); for damage=none: the patch reads at least one old file.",
 		Assumptions: []string{
 			"block contents are seeded pseudo-random (VERIF_SEED); a bit flip inverts bit 0 of one byte",
 			"the signature handed to the safekeeper is the one WritePatch produced when the old build was published (diff from an empty build), computed before the damage",
@@ -259,15 +277,15 @@ func kindLabel(d Dmg, signedSize int64) string {
 		return "flip"
 	case "truncate":
 		if d.N%B == 0 {
-			return "truncate-at-block-boundary"
+			return "trunc-at-boundary"
 		}
-		return "truncate-inside-block"
+		return "trunc-in-block"
 	case "extend":
 		if signedSize == 0 {
-			return "fill-empty"
+			return "filled-empty"
 		}
 		if r := signedSize % B; r > 0 && r+d.N <= B {
-			return "extend-inside-last-block"
+			return "extend-in-last-block"
 		}
 		return "extend-past-last-block"
 	case "delete":
@@ -279,11 +297,11 @@ func kindLabel(d Dmg, signedSize int64) string {
 func sizeClassOf(size int64) string {
 	switch {
 	case size == 0:
-		return "empty"
+		return "size-0"
 	case size%B == 0:
-		return "multiple-of-block"
+		return "size-kB"
 	}
-	return "not-multiple-of-block"
+	return "size-kB+r"
 }
 
 // applyDamage applies d to dir; ok=false if the damage is not applicable to the
@@ -350,8 +368,8 @@ type fileInfo struct {
 }
 
 func (fi fileInfo) reuse() string {
-	if fi.mode == "whole-file-copy" && fi.afterSame {
-		return "whole-file-copy-after-read-of-same-file"
+	if fi.mode == "whole-copy" && fi.afterSame {
+		return "whole-copy-after-read"
 	}
 	return fi.mode
 }
@@ -396,7 +414,7 @@ func analyze(patch []byte) (*patchInfo, error) {
 		case len(s.Ops) > 0 && s.Ops[0].Type == pwr.SyncOp_BLOCK_RANGE && s.Ops[0].BlockIndex == 0 &&
 			s.Ops[0].FileIndex >= 0 && s.Ops[0].FileIndex < int64(len(dp.Target.Files)) &&
 			dp.Target.Files[s.Ops[0].FileIndex].Size == nf.Size && s.Ops[0].BlockSpan == (nf.Size+B-1)/B:
-			fi.mode = "whole-file-copy"
+			fi.mode = "whole-copy"
 			pi.nops += len(s.Ops)
 			fi.afterSame = last == s.Ops[0].FileIndex
 			read(s.Ops[0].FileIndex)
@@ -482,10 +500,12 @@ func applyThroughSafeKeeper(patch, oldSig []byte, oldDir, outDir string) applyRe
 			return
 		}
 	}()
+	watchdog := time.NewTimer(hangTimeout)
+	defer watchdog.Stop()
 	select {
 	case r := <-ch:
 		return r
-	case <-time.After(hangTimeout):
+	case <-watchdog.C:
 		return applyResult{stage: "hang", err: fmt.Errorf("application did not return within %v", hangTimeout)}
 	}
 }
@@ -678,7 +698,7 @@ func body(w *runner.W) {
 		und.Done()
 	}
 
-	single := runner.NewSub(w, "single-damage", run, runner.Journal())
+	single := runner.NewSub(w, "single", run, runner.Journal())
 	if single.Active() {
 		for i, cf := range cfgs {
 			if !w.Owns(i) {
@@ -694,7 +714,7 @@ func body(w *runner.W) {
 		single.Done()
 	}
 
-	cross := runner.NewSub(w, "two-files-damaged", run, runner.Journal())
+	cross := runner.NewSub(w, "two-files", run, runner.Journal())
 	if cross.Active() {
 		ord := 0
 		for _, cf := range cfgs {
@@ -721,7 +741,7 @@ func body(w *runner.W) {
 		cross.Done()
 	}
 
-	same := runner.NewSub(w, "one-file-damaged-twice", run, runner.Journal())
+	same := runner.NewSub(w, "same-file", run, runner.Journal())
 	if same.Active() {
 		// pairs of single damages of different kinds on one file, applied in the
 		// order truncate, extend, flip (quick: a slice of the pairs; thorough: all)
@@ -743,6 +763,9 @@ func body(w *runner.W) {
 					for _, d2 := range ds {
 						if d2.Kind == "delete" || rank[d1.Kind] >= rank[d2.Kind] {
 							continue
+						}
+						if d1.Kind == "truncate" && d2.Kind == "flip" && d2.N >= d1.N {
+							continue // the byte to flip was cut off
 						}
 						same.DoOwned(mk(cf, d1, d2))
 					}
@@ -838,7 +861,7 @@ func (e *env) runCase(c Case, r *runner.Rec) {
 		return kinds, size
 	}
 	// damage label of a silently wrong new file:
-	//  - "undamaged-already-fails" if the same new file already violates the
+	//  - "already-failing" if the same new file already violates the
 	//    property without any damage (the damage is not what makes it wrong);
 	//  - for two damages: the single damage that alone yields the very same wrong
 	//    content, if there is one;
@@ -848,7 +871,7 @@ func (e *env) runCase(c Case, r *runner.Rec) {
 			return "none", size
 		}
 		if e.baselineFails(p, o, newPath) {
-			return "undamaged-already-fails", size
+			return "already-failing", size
 		}
 		ds := c.Dmg
 		if len(ds) > 1 {
